@@ -330,6 +330,7 @@ func (x *matcher) apply(c mCall, src, dst mNode, how string) {
 	m, wild, _ := x.bl.VerifLists()
 	if !sameNames(m, x.names(dst.M)) || !sameNames(wild, x.names(dst.Wild)) {
 		x.res.DriftNote("after %s the lists are m=%v wild=%v, model m=%v wild=%v", how, m, wild, x.names(dst.M), x.names(dst.Wild))
+		x.inject(dst) // re-synchronise with the model and go on
 	}
 }
 
